@@ -521,7 +521,7 @@ def api_names():
 def plan(tier):
     quick = tier == "quick"
     names = api_names()
-    seeds = [0, 1, 7, 42] if quick else [0, 1, 7, 42, 2**31 + 5, 123456789]
+    seeds = [0, 1, 7, 42] if quick else [0, 1, 2, 3, 7, 42, 99, 1234, 2**31 + 5, 123456789]
     nets = ["A14", "B16m", "C12m", "D20"]
     calls = []
     for name, per_net in sorted(names.items()):
@@ -599,11 +599,12 @@ def run_bounded(rep: Report, tier: str) -> None:
     quick = tier == "quick"
     dl = deadline(tier, 400, 1800)
     calls, names, seeds, nets = plan(tier)
-    nb = 4 if quick else 8
+    nb = 4 if quick else 16
     batches = _batches(calls, nb)
     jobs = []
+    runs = RUNS if quick else RUNS + [("3", 6), ("77", 7), ("4242", 8), ("random", 9)]
     for bi, b in enumerate(batches):
-        for hs, pt in RUNS:
+        for hs, pt in runs:
             jobs.append({"calls": b, "hashseed": hs, "perturb": pt, "batch": bi})
     rep.rule = (
         "a case = (seeded API, network, integer seed); it is evaluated once per run setting (PYTHONHASHSEED in 0/1/2/999/12345/random x global RNG "
@@ -629,7 +630,7 @@ def run_bounded(rep: Report, tier: str) -> None:
 
     by_api_seedres = {}
     for bi, b in enumerate(batches):
-        outs = [(hs, pt, results.get((bi, hs, pt))) for hs, pt in RUNS]
+        outs = [(hs, pt, results.get((bi, hs, pt))) for hs, pt in runs]
         outs = [o for o in outs if o[2] is not None]
         if len(outs) < 2:
             continue
@@ -665,7 +666,7 @@ def run_bounded(rep: Report, tier: str) -> None:
     rep.extra["apis_where_all_seeds_gave_the_same_result"] = sorted(set(names) - set(seeds_matter))
     rep.extra["hash_probe_per_PYTHONHASHSEED"] = {k: sorted(v) for k, v in probes.items()}
     rep.extra["fresh_interpreters"] = len(results)
-    rep.sample({"apis": len(names), "calls_per_run": len(calls), "runs": RUNS})
+    rep.sample({"apis": len(names), "calls_per_run": len(calls), "runs": runs})
     rep.scope("seeded APIs x networks x seeds, each in 6 fresh interpreters (PYTHONHASHSEED 0/1/2/999/12345/random, global RNGs re-seeded differently "
               "before every call, different call order), tripwire on random.* and numpy.random.*",
               len(calls), False,
